@@ -263,6 +263,53 @@ def _large_job(job):
     return dict(res=res.to_json(), cands=cands)
 
 
+def _gauss_oracle(rows, n):
+    """plain-Python Gauss-Jordan over GF(2) on integer-packed rows -> (rref rows as lists, pivot columns)"""
+    vals = [sum((int(v) & 1) << (n - 1 - j) for j, v in enumerate(r)) for r in rows]
+    piv = []
+    h = 0
+    for c in range(n):
+        bit = 1 << (n - 1 - c)
+        p_ = next((i for i in range(h, len(vals)) if vals[i] & bit), None)
+        if p_ is None:
+            continue
+        vals[h], vals[p_] = vals[p_], vals[h]
+        for i in range(len(vals)):
+            if i != h and vals[i] & bit:
+                vals[i] ^= vals[h]
+        piv.append(c)
+        h += 1
+        if h == len(vals):
+            break
+    return [[(v >> (n - 1 - j)) & 1 for j in range(n)] for v in vals], piv
+
+
+def _native_large_sweep(seed):
+    """concrete side condition at the shapes the library uses: native routines vs the big-int oracle"""
+    rnd = random.Random(seed)
+    bad = []
+    ok = 0
+    for (m, n) in [(36, 24), (24, 36), (34, 24), (33, 8), (8, 33), (16, 16), (25, 20)]:
+        for t in range(6):
+            if t % 3 == 0:
+                A = [[1 if j == (i * n) // m or (j > (i * n) // m and (i * 7 + j * 3 + t) % 5 == 0) else 0 for j in range(n)] for i in range(m)]
+            elif t % 3 == 1:
+                r = rnd.randrange(1, min(m, n) + 1)
+                P = [[rnd.randrange(2) for _ in range(r)] for _ in range(m)]
+                Q = [[rnd.randrange(2) for _ in range(n)] for _ in range(r)]
+                A = [[sum(P[i][k] * Q[k][j] for k in range(r)) % 2 for j in range(n)] for i in range(m)]
+            else:
+                A = [[rnd.randrange(2) for _ in range(n)] for _ in range(m)]
+            if t >= 3:
+                A = A[::-1]
+            rep, detail = replay(dict(kind="matrix", m=m, n=n, dtype="int8", A=A))
+            if rep:
+                bad.append(dict(kind="matrix", m=m, n=n, dtype="int8", A=A, label="native routines wrong on a %dx%d matrix: %s" % (m, n, detail)))
+            else:
+                ok += 1
+    return bad, ok
+
+
 def _dtype_sweep(seed):
     """concrete side condition: the native routines on seeded matrices in every integer / bool dtype against the
     brute-force oracle used by replay -> list of failing cases"""
@@ -376,7 +423,7 @@ def run(tier, seed):
     ck.bounds += ["every binary matrix of every shape in %s with nominal dtype int8 (all entries symbolic)" % (shapes,),
                   "shapes %s additionally with nominal dtype int64 (other branch of rref_and_basis_change)" % (shapes64,),
                   "library-size shapes (36x24, 24x36, 34x24, 33x8, 16x16, 20x24, 12x24, 24x12): seeded structured matrices (low-rank products, staircases, random) with 4 symbolic entries each, incl. agreement of the NATIVE routines on a model of every path",
-                  "side condition (concrete): native routines in 9 integer/bool dtypes on seeded matrices against brute force",
+                  "side conditions (concrete, run first): native routines in 9 integer/bool dtypes on seeded small matrices against brute force; native routines on seeded structured matrices at library-size shapes against a big-integer Gauss-Jordan oracle",
                   "mat_mul/add/trf_* : shapes m,n<=3 (quick) / <=4 (thorough), row indices symbolic",
                   "history: two-call sequences (all routines on a first symbolic matrix, obligations on a second) for pairs of small shapes (m*n<=4 quick, <=6 thorough)"]
     ck.outside += ["fully symbolic matrices larger than the listed shapes (the library uses up to 36x24; path count grows ~x8 per row/column)",
@@ -385,6 +432,13 @@ def run(tier, seed):
     ck.assumptions += ["entries are 0/1 (documented precondition)"]
     ck.validated += _translator_validation(seed)
     cands = []
+    pre = []
+    bad0, ok0 = _native_large_sweep(seed)
+    bad1, ok1 = _dtype_sweep(seed)
+    ck.validated += ok0 + ok1
+    for c in (bad0 + bad1)[:6]:
+        pre.append(("native %s %dx%d %s" % (c["dtype"], c["m"], c["n"], hash(str(c["A"])) & 0xFFFFF), c, c["label"]))
+    ck.candidates(pre)
     early0 = []
     big = [(36, 24), (24, 36), (34, 24), (33, 8), (16, 16), (20, 24), (12, 24), (24, 12)]
     ljobs = [(mm, nn, 4, seed * 100 + i * 7 + t) for i, (mm, nn) in enumerate(big) for t in range(3 if tier == "quick" else 12)]
@@ -393,11 +447,7 @@ def run(tier, seed):
         ck.add("library-size shape %dx%d" % job[:2], res, sample=0)
         for c in r["cands"][:2]:
             early0.append(("%s %dx%d %s" % (c["label"][:60], c["m"], c["n"], hash(str(c["A"])) & 0xFFFF), c, "%s on a %dx%d matrix" % (c["label"], c["m"], c["n"])))
-    bad, n_ok = _dtype_sweep(seed)
-    ck.validated += n_ok
     early = []
-    for c in bad[:5]:
-        early.append(("dtype %s %dx%d %s" % (c["dtype"], c["m"], c["n"], c["A"]), c, c["label"]))
     ck.candidates((early0 + early)[:12])      # reported at once: these families are the cheap, machine-level ones
     jobs = []
     for (m, n, nominal) in [(m, n, "int8") for m, n in shapes] + [(m, n, "int64") for m, n in shapes64]:
@@ -440,6 +490,35 @@ def run(tier, seed):
     return ck.finish()
 
 
+def _replay_large(f2, A, A_before, rows, m, n):
+    want, piv = _gauss_oracle(rows, n)
+    dim = len(piv)
+    try:
+        R, p2 = f2.rref(A)
+        if [[int(v) for v in r] for r in np.array(R)] != want or [int(x) for x in p2] != piv:
+            return True, "rref differs from the unique reduced row echelon form (pivots %s vs %s)" % (list(p2), piv)
+        rk = f2.rank(A)
+        if rk != dim:
+            return True, "rank %s, dimension of the row space %d" % (rk, dim)
+        R2, M, Mi = f2.rref_and_basis_change(A)
+        if [[int(v) for v in r] for r in np.array(R2)] != want:
+            return True, "rref_and_basis_change RREF wrong"
+        if not np.array_equal((M.astype(int) @ A.astype(int)) % 2, np.array(want)) or not np.array_equal((M.astype(int) @ Mi.astype(int)) % 2, np.eye(m, dtype=int)):
+            return True, "M*A != RREF or M*M_inv != I"
+        K = f2.null_space(A)
+        if not (isinstance(K, np.ndarray) and K.ndim == 2 and K.shape == (n - dim, n) and np.issubdtype(K.dtype, np.integer)):
+            return True, "null_space shape %s dtype %s, kernel dimension %d" % (getattr(K, "shape", None), getattr(K, "dtype", None), n - dim)
+        if ((A.astype(int) @ K.astype(int).T) % 2).any():
+            return True, "null_space vector outside the kernel"
+        if K.shape[0] and len(_gauss_oracle([list(r) for r in K], n)[1]) != n - dim:
+            return True, "null_space vectors are dependent"
+        if not np.array_equal(A, A_before):
+            return True, "input modified"
+    except Exception as e:
+        return True, "raised %r" % (e,)
+    return False, "all routines correct on this matrix"
+
+
 # ------------------------------------------------------------------------------------------------ replay
 def replay(case):
     from htstabilizer import f2_algebra as f2
@@ -477,7 +556,9 @@ def replay(case):
     m, n = A.shape
     A_before = A.copy()
     # brute-force oracles
-    rows = [tuple(int(v) for v in r) for r in A]
+    rows = [tuple(int(v) & 1 for v in r) for r in A]
+    if m > 12 or n > 12:
+        return _replay_large(f2, A, A_before, rows, m, n)
     span = {tuple([0] * n)}
     for r in rows:
         span |= {tuple(a ^ b for a, b in zip(s, r)) for s in span}
